@@ -67,7 +67,15 @@ pub struct RenderCase {
     pub renderer: u8,
     pub absolute: bool,
     pub surrounding: usize,
+    /// text that the renderers show unescaped (shell expression, title) holds: 0 nothing special, 1 an unterminated OSC
+    /// sequence (ESC ]), 2 an unterminated CSI sequence (ESC [), 3 a DCS introducer (ESC P), 4 NUL and BEL
+    #[serde(default)]
+    pub awkward: u8,
 }
+
+static COLOUR_SWITCH: std::sync::RwLock<()> = std::sync::RwLock::new(());
+
+pub const AWKWARD: [&str; 5] = ["", "\u{1b}]0;title", "\u{1b}[38;5", "\u{1b}Pq", "\0\u{7}"];
 
 thread_local! {
     static MAKER: ExpectationMaker = ExpectationMaker::new(RuleRegistry::default());
@@ -78,8 +86,8 @@ thread_local! {
 fn build_outcome(i: usize, atom: &Atom, case: &RenderCase) -> Option<(Outcome, &'static str)> {
     let t = texts();
     let mut tc = TestCase {
-        title: format!("Title{i}"),
-        shell_expression: format!("cmd{i}"),
+        title: format!("Title{i}{}", AWKWARD[case.awkward as usize]),
+        shell_expression: format!("cmd{i}{}", if case.awkward == 0 { String::new() } else { format!("; echo \"{}\"", AWKWARD[case.awkward as usize]) }),
         expectations: vec![],
         exit_code: None,
         line_number: case.line_number + i * 10,
@@ -259,6 +267,7 @@ impl Engine for VcRender {
                                     renderer,
                                     absolute,
                                     surrounding,
+                                    awkward: 0,
                                 })
                             })
                         })
@@ -284,7 +293,7 @@ impl Engine for VcRender {
                 let params = params.clone();
                 [false, true].into_iter().flat_map(move |ascii| {
                     let atoms = atoms.clone();
-                    params.clone().into_iter().map(move |(renderer, absolute, surrounding)| RenderCase { atoms: atoms.clone(), location, cram: ascii, ascii, line_number: 7, renderer, absolute, surrounding })
+                    params.clone().into_iter().map(move |(renderer, absolute, surrounding)| RenderCase { atoms: atoms.clone(), location, cram: ascii, ascii, line_number: 7, renderer, absolute, surrounding, awkward: 0 })
                 })
             })
         });
@@ -297,7 +306,7 @@ impl Engine for VcRender {
                 [0usize, 1, 3].into_iter().flat_map(move |lines| {
                     let params3 = params3.clone();
                     [1usize, 89, 98].into_iter().flat_map(move |line_number| {
-                        params3.clone().into_iter().map(move |(renderer, absolute, surrounding)| RenderCase { atoms: vec![Atom::LongList { len, required_at, lines }], location: true, cram: false, ascii: false, line_number, renderer, absolute, surrounding })
+                        params3.clone().into_iter().map(move |(renderer, absolute, surrounding)| RenderCase { atoms: vec![Atom::LongList { len, required_at, lines }], location: true, cram: false, ascii: false, line_number, renderer, absolute, surrounding, awkward: 0 })
                     })
                 })
             })
@@ -313,10 +322,26 @@ impl Engine for VcRender {
             let params4 = params4.clone();
             [false, true].into_iter().flat_map(move |cram| {
                 let items = items.clone();
-                params4.clone().into_iter().map(move |(renderer, absolute, surrounding)| RenderCase { atoms: vec![Atom::Shape { items: items.clone() }], location: true, cram, ascii: false, line_number: 3, renderer, absolute, surrounding })
+                params4.clone().into_iter().map(move |(renderer, absolute, surrounding)| RenderCase { atoms: vec![Atom::Shape { items: items.clone() }], location: true, cram, ascii: false, line_number: 3, renderer, absolute, surrounding, awkward: 0 })
             })
         });
-        Box::new(lists.chain(long).chain(shapes).chain(singles))
+        // (e) text that is shown unescaped (shell expression, title) holding escape sequence introducers
+        let reps2 = vec![
+            Atom::Ok,
+            Atom::Malformed { exps: vec![0, 3], lines: vec![1, 0, 6], final_newline: true },
+            Atom::InvalidExit { actual: 3, expected: None, line: 0 },
+            Atom::Internal,
+            Atom::Timeout,
+            Atom::Skipped,
+        ];
+        let awkward = (1..AWKWARD.len() as u8).flat_map(move |awk| {
+            let reps2 = reps2.clone();
+            words(reps2.len(), 2).into_iter().flat_map(move |w| {
+                let atoms: Vec<Atom> = w.iter().map(|i| reps2[*i].clone()).collect();
+                (0..6u8).map(move |renderer| RenderCase { atoms: atoms.clone(), location: true, cram: false, ascii: false, line_number: 7, renderer, absolute: false, surrounding: 5, awkward: awk })
+            })
+        });
+        Box::new(lists.chain(long).chain(shapes).chain(awkward).chain(singles))
     }
     fn bound(&self, tier: Tier) -> String {
         let (max_e, max_l, list_len) = match tier {
@@ -325,7 +350,7 @@ impl Engine for VcRender {
         };
         let shape_len = if matches!(tier, Tier::Quick) { 4 } else { 5 };
         format!(
-            "(a) single failed outcomes whose diff is produced by the real validate for every expectation list <= {max_e} x output <= {max_l} lines over {} texts (multi-byte, wide, trailing Unicode whitespace, NUL, ESC, 0xFF, 10000-char line, empty, glob) with/without final newline x both escapers x line numbers {{1,98,9999}} x 16 renderer settings (pretty colour/mono x relative/absolute x 0/1/5 surrounding lines; diff; json; json pretty; yaml); (c) expectation lists of 9..12 entries of which all but one are optional and skipped (line numbering crosses 10 / 100), x 0/1/3 output lines x line numbers {{1,89,98}}; (d) every hand-built diff of <= {shape_len} items over {{matched, unmatched expectation, 1 unexpected line, 2 unexpected lines, expectation matched by 2 lines}} (also shapes that the diff tool of today does not produce, e.g. adjacent runs of unexpected lines) x Markdown/Cram x 6 renderer settings; (b) all outcome lists of length <= {list_len} over 7 representatives of the result kinds x location present/absent x escaper x the same renderer settings",
+            "(a) single failed outcomes whose diff is produced by the real validate for every expectation list <= {max_e} x output <= {max_l} lines over {} texts (multi-byte, wide, trailing Unicode whitespace, NUL, ESC, 0xFF, 10000-char line, empty, glob) with/without final newline x both escapers x line numbers {{1,98,9999}} x 16 renderer settings (pretty colour/mono x relative/absolute x 0/1/5 surrounding lines; diff; json; json pretty; yaml); (c) expectation lists of 9..12 entries of which all but one are optional and skipped (line numbering crosses 10 / 100), x 0/1/3 output lines x line numbers {{1,89,98}}; (d) every hand-built diff of <= {shape_len} items over {{matched, unmatched expectation, 1 unexpected line, 2 unexpected lines, expectation matched by 2 lines}} (also shapes that the diff tool of today does not produce, e.g. adjacent runs of unexpected lines) x Markdown/Cram x 6 renderer settings; (e) all outcome pairs over 6 representatives whose shell expression and title (shown unescaped) hold an unterminated OSC / CSI / DCS introducer or NUL+BEL x 6 renderers; (b) all outcome lists of length <= {list_len} over 7 representatives of the result kinds x location present/absent x escaper x the same renderer settings",
             texts().len()
         )
     }
@@ -353,6 +378,15 @@ impl Engine for VcRender {
             }
         }
         let refs: Vec<&Outcome> = outcomes.iter().collect();
+        // the monochrome renderer is what runs when colours are off (`--no-color`, output that is no terminal): family (e)
+        // renders it that way; the switch is global to the process, so those cases exclude all other rendering meanwhile
+        let _colour_guard: Result<std::sync::RwLockReadGuard<()>, std::sync::RwLockWriteGuard<()>> = if case.awkward != 0 && case.renderer == 1 {
+            let g = COLOUR_SWITCH.write().unwrap_or_else(|e| e.into_inner());
+            console_colors(false);
+            Err(g)
+        } else {
+            Ok(COLOUR_SWITCH.read().unwrap_or_else(|e| e.into_inner()))
+        };
         let rendered = guard(|| match case.renderer {
             0 => PrettyColorRenderer { max_surrounding_lines: case.surrounding, absolute_line_numbers: case.absolute, summarize: true }.render(&refs),
             1 => PrettyMonochromeRenderer::new(PrettyColorRenderer { max_surrounding_lines: case.surrounding, absolute_line_numbers: case.absolute, summarize: true }).render(&refs),
@@ -361,6 +395,10 @@ impl Engine for VcRender {
             4 => JsonRenderer::new(true).render(&refs),
             _ => YamlRenderer::new().render(&refs),
         });
+        if _colour_guard.is_err() {
+            console_colors(true);
+        }
+        drop(_colour_guard);
         let rname = ["pretty", "pretty-mono", "diff", "json", "json-pretty", "yaml"][case.renderer as usize];
         let fail = |res: &mut CaseResult, clause: &str, exp: String, obs: String| {
             if res.findings.len() < 2 {
@@ -392,7 +430,7 @@ impl Engine for VcRender {
                 // sections by command header
                 for (i, (o, k)) in outcomes.iter().zip(kinds.iter()).enumerate() {
                     let header = format!("// $ cmd{i}");
-                    let start = lines.iter().position(|l| *l == header);
+                    let start = lines.iter().position(|l| *l == header || (case.awkward != 0 && l.starts_with(&header)));
                     let failed = !matches!(*k, "success" | "skipped");
                     if !failed {
                         if start.is_some() {
@@ -464,7 +502,7 @@ impl Engine for VcRender {
                 let lines: Vec<&str> = text.lines().collect();
                 for (i, (o, k)) in outcomes.iter().zip(kinds.iter()).enumerate() {
                     let title = format!(": Title{i}");
-                    let hunks: Vec<usize> = lines.iter().enumerate().filter(|(_, l)| l.starts_with("@@ ") && l.ends_with(&title)).map(|(j, _)| j).collect();
+                    let hunks: Vec<usize> = lines.iter().enumerate().filter(|(_, l)| l.starts_with("@@ ") && (l.ends_with(&title) || (case.awkward != 0 && l.contains(&title)))).map(|(j, _)| j).collect();
                     let prefix = if case.cram { "  " } else { "" };
                     match &o.result {
                         Ok(()) => {
